@@ -135,7 +135,9 @@ impl<const N: usize, T: Send + Sync> AtomicIter<T> for ConIterOfArray<N, T> {
     }
 
     fn early_exit(&self) {
-        self.counter().store(N)
+        // all elements that are not reserved yet are reserved and dropped here:
+        // they will not be yielded, and must not be forgotten.
+        drop(self.fetch_n(N));
     }
 }
 
